@@ -46,7 +46,9 @@ pub fn report(ctx: &mut Ctx, focus: &str, cfg: &RunCfg, fs: Vec<Finding>, extra:
             ctx.violation(format!("{} {}", f.prop, f.sig), f.detail, json!({"config": cfg.describe(), "info": extra}));
         } else {
             ctx.count(&format!("other-property-clause-failed:{}", f.prop));
-            ctx.note(format!("[{}] {} | {}", f.prop, f.sig, f.detail.chars().take(160).collect::<String>()));
+            if ctx.notes.iter().filter(|n| n.starts_with(&format!("[{}]", f.prop))).count() < 6 {
+                ctx.note(format!("[{}] {} | {} | cfg {}", f.prop, f.sig, f.detail.chars().take(160).collect::<String>(), cfg.describe().to_string().chars().take(420).collect::<String>()));
+            }
         }
     }
 }
@@ -217,6 +219,7 @@ pub fn base_cfg(rng: &mut SRng, quick: bool, want_byz: bool, want_crash: bool) -
         diss: if rng.random_bool(0.7) { DissKind::Rotor } else { DissKind::Trivial },
         tx_rate: *[0u32, 5, 40].choose(rng).unwrap(),
         withhold: None,
+        hostile: None,
         label: String::new(),
     }
 }
@@ -277,7 +280,8 @@ pub fn judge_all(ctx: &mut Ctx, focus: &str, cfg: &RunCfg, out: &RunOut) {
     let (sf, sinfo) = safety_oracle(cfg, out);
     let (vf, vjudged) = voting_rules_oracle(cfg, out);
     ctx.count_n("node-slot-vote-sets-judged", vjudged);
-    let (pf, pinfo, judged_blocks) = progress_oracle(cfg, out);
+    // the progress clauses presuppose C02's premise (no hostile floods, no loss)
+    let (pf, pinfo, judged_blocks) = if focus == "C02" { progress_oracle(cfg, out) } else { (Vec::new(), json!(null), 0) };
     // panics in the crate under test and dead node tasks (C10)
     let mut cf = Vec::new();
     for p in &out.panics {
@@ -345,7 +349,7 @@ pub fn run_c01(ctx: &mut Ctx) -> Result<(), String> {
         cfg.duration = Duration::from_secs(if ctx.quick() { 18 } else { 30 });
         cfg.t_stable = cfg.duration.mul_f64(*[0.5, 0.7, 1.0].choose(&mut rng).unwrap());
         cfg.delta = Duration::from_millis(*[20u64, 150].choose(&mut rng).unwrap());
-        cfg.byz_leader = *[ByzLeader::TwoBlocks, ByzLeader::TwoBlocks, ByzLeader::OneBlock, ByzLeader::Late, ByzLeader::Silent].choose(&mut rng).unwrap();
+        cfg.byz_leader = *[ByzLeader::TwoBlocks, ByzLeader::TwoBlocks, ByzLeader::TwoBlocksLastSlot, ByzLeader::OneBlock, ByzLeader::Late, ByzLeader::Silent].choose(&mut rng).unwrap();
         for c in cfg.crashes.iter_mut() {
             c.1 = Duration::from_millis(rng.random_range(0..cfg.duration.as_millis() as u64));
         }
@@ -394,4 +398,107 @@ pub fn run_c05_wire(ctx: &mut Ctx, runs_q: u64, runs_t: u64) {
         judge_all(ctx, "C05", &cfg, &out);
     }
     let _: Option<(Bid, VK)> = None;
+}
+
+/// C10: hostile input on all five interfaces and Byzantine-signed content never crash or wedge a node.
+pub fn run_c10(ctx: &mut Ctx) -> Result<(), String> {
+    let rt = tokio::runtime::Builder::new_current_thread().enable_all().start_paused(true).build().map_err(|e| e.to_string())?;
+    let mut rng = ctx.rng("c10");
+    let runs = ctx.iters(32, 1600);
+    for i in 0..runs {
+        let mut cfg = loop {
+            let c = base_cfg(&mut rng, ctx.quick(), true, false);
+            if !c.byz.is_empty() && c.ep.n() >= 4 {
+                break c;
+            }
+        };
+        cfg.crashes.clear();
+        cfg.chaos = chaos_profiles()[0].clone();
+        cfg.t_stable = Duration::ZERO;
+        cfg.delta = Duration::from_millis(*[5u64, 40, 120].choose(&mut rng).unwrap());
+        cfg.duration = Duration::from_secs(if ctx.quick() { 24 } else { 32 });
+        cfg.byz_leader = *[ByzLeader::OneBlock, ByzLeader::TwoBlocks, ByzLeader::TwoBlocksLastSlot, ByzLeader::TwoBlocksLastSlot, ByzLeader::Silent].choose(&mut rng).unwrap();
+        cfg.tx_rate = *[0u32, 10].choose(&mut rng).unwrap();
+        let hostile_end = cfg.duration.mul_f64(0.55);
+        let base_duration = cfg.duration;
+        // every run mixes a handful of classes; over the shards all classes are covered
+        let mut classes: Vec<&'static str> = crate::hostile::CLASSES.to_vec();
+        classes.shuffle(&mut rng);
+        classes.truncate(rng.random_range(4..=10));
+        // directed: every class gets its own run now and then
+        if i % 3 == 0 {
+            classes = vec![crate::hostile::CLASSES[(i as usize / 3 + ctx.shard * 7) % crate::hostile::CLASSES.len()]];
+        }
+        cfg.hostile = Some((Duration::from_secs(2), hostile_end, classes));
+        // a quarter of the runs start with an asynchronous period (lagging leaders, late finalizations)
+        if i % 4 == 1 {
+            let mut ch = chaos_profiles();
+            ch.remove(0);
+            cfg.chaos = ch.choose(&mut rng).unwrap().clone();
+            cfg.chaos.loss = 0.0;
+            cfg.t_stable = Duration::from_secs(*[6u64, 9].choose(&mut rng).unwrap());
+            cfg.duration += Duration::from_secs(8);
+            if rng.random_bool(0.5) {
+                cfg.hostile = None;
+            }
+        }
+        // a deliberately triggered repair after the hostile phase: one correct node misses a window's shreds
+        let correct: Vec<usize> = (0..cfg.ep.n()).filter(|v| !cfg.byz.contains(v)).collect();
+        let victim = *correct.choose(&mut rng).unwrap();
+        let _ = base_duration;
+        let first_slot = ((hostile_end.as_millis() as u64 + 2500) / 400 / 4 + 1) * 4;
+        let n = cfg.ep.n() as u64;
+        // choose a window led by another correct node
+        let mut w = first_slot / 4;
+        for _ in 0..2 * n {
+            let l = (w % n) as usize;
+            if l != victim && !cfg.byz.contains(&l) {
+                break;
+            }
+            w += 1;
+        }
+        cfg.withhold = Some((victim, (w * 4..w * 4 + 2).collect()));
+        cfg.label = "c10".into();
+        let out = rt.block_on(tokio::task::unconstrained(execute(&cfg, &mut rng)));
+        // C10-specific oracle
+        let mut fs: Vec<Finding> = Vec::new();
+        let tail_from = cfg.duration - Duration::from_secs(7);
+        for &v in &out.correct {
+            let at_tail_start = out.samples.iter().filter(|(t, _)| *t >= tail_from).filter_map(|(_, m)| m.get(&v)).next().copied().unwrap_or(0);
+            let at_end = out.samples.last().and_then(|(_, m)| m.get(&v)).copied().unwrap_or(0);
+            if at_end < at_tail_start + 4 {
+                fs.push(Finding { prop: "C10", sig: "a correct node stopped finalizing after the hostile phase".into(), detail: format!("node {v}: finalized slot {at_tail_start} -> {at_end} in the last 7 virtual seconds") });
+            }
+        }
+        if out.probe == Some(false) {
+            fs.push(Finding { prop: "C10", sig: "repair responder did not answer a probe request after the hostile phase".into(), detail: String::new() });
+        }
+        if let Some((victim, slots)) = &cfg.withhold {
+            // the victim must still finalize the withheld slots (through repair) if the others did
+            let fin_of = |v: usize| -> BTreeMap<u64, H32> {
+                out.fin_logs.get(&v).map(|l| l.iter().filter_map(|e| if let FinEv::Finalized(b) | FinEv::ImplicitlyFinalized(b) = e { Some((b.0, b.1)) } else { None }).collect()).unwrap_or_default()
+            };
+            let mine = fin_of(*victim);
+            for s in slots {
+                let others: BTreeSet<H32> = out.correct.iter().filter(|v| *v != victim).filter_map(|v| fin_of(*v).get(s).copied()).collect();
+                if others.len() == 1 && out.correct.contains(victim) {
+                    ctx.count("withheld-slots-finalized-by-others");
+                    if mine.get(s) != others.iter().next() {
+                        fs.push(Finding { prop: "C10", sig: "a node that missed a block's shreds did not catch up through repair".into(), detail: format!("node {victim} slot {s}: {:?}", mine.get(s).map(h32_short_pub)) });
+                    } else {
+                        ctx.count("withheld-slots-repaired-and-finalized");
+                    }
+                }
+            }
+        }
+        for (c, k) in &out.hostile_sent {
+            ctx.count_n(&format!("hostile:{c}"), *k);
+        }
+        for r in &out.hostile_roles {
+            ctx.distinct(format!("c10:{r}"));
+        }
+        report(ctx, "C10", &cfg, fs, json!({"hostile_sent": out.hostile_sent, "probe": out.probe}));
+        judge_all(ctx, "C10", &cfg, &out);
+    }
+    Ok(())
 }
